@@ -111,6 +111,11 @@ def run(tier):
         res = res + res3
     # (b) construct -> event mapping: all 2^10 combinations on a used transformer + two-part instructions
     progs = programs()
+    # assignment targets of every register kind: only P registers are predicate writes
+    targets = ["HEX_REG_ALIAS_PKTCOUNT = RssV;", "HEX_REG_ALIAS_LR = RsV;", "HEX_REG_ALIAS_SP = RsV;", "HEX_REG_ALIAS_USR = RsV;", "C1 = RsV;", "M0 = RsV;",
+               "R1:0 = RssV;", "R3 = RsV;", "CdV = RsV;", "MuV = RsV;", "RddV = RssV;", "int32_t PdX = RsV; RxV = PdX;", "P0 = RsV; P0 = RtV;",
+               "PeV = RsV;", "P3 = RsV; P2 = RsV; P1 = RsV; P0 = RsV;", "RxV = P1; RyV = PtV;", "HEX_REG_ALIAS_FRAMEKEY = RsV; P1 = RtV;"]
+    progs = progs + ["{ " + t + " }" for t in targets] + ["{ if (RuV > 0) { " + t + " } }" for t in targets]
     singles = [(p,) for p in progs]
     pairs = [(progs[i], progs[(i * 37 + 11) % len(progs)]) for i in range(0, len(progs), 1 if thorough else 4)]
     recs = framework.pmap(_attr_prog, singles + pairs, chunksize=8)
